@@ -90,6 +90,9 @@ def scale_part(rep, tier):
     """M3: OQOps evaluated by TLC on single large states (capacities / fill levels around 2^8 and 2^16) vs the real queue"""
     caps = [1, 2, 10, 255, 256, 257, 65535, 65536, 65537] + ([131071, 131072, 200000] if tier == "thorough" else [70000])
     vecs = sorted({(c, f) for c in caps for f in (c - 1, c) if f >= 0})
+    # capacity lowered below the fill level (setBufferSize while objects are queued): the producer stays held until
+    # the queue has drained below the new capacity
+    vecs += [(1, 2), (1, 3), (2, 4), (10, 11), (10, 25), (255, 256), (255, 300), (65535, 65536)]
     mc = vlib.write_mc("MC_OQScale_" + tier, "OQScale", "MCVectors == {%s}" % ", ".join("<<%d, %d>>" % v for v in vecs))
     cfg = write_cfg("OQScale_%s.cfg" % tier, "SPECIFICATION Spec\nCONSTANTS Vectors <- MCVectors\nCHECK_DEADLOCK FALSE\n")
     res = vlib.run_tlc(mc, cfg, "c16_scale_" + tier, workers=1, timeout=600)
@@ -119,8 +122,9 @@ def scale_part(rep, tier):
         if g["held"] and e["held"]:
             if (g["ret"], g["gAfterRead"]) != (e["ret"], e["gAfterRead"]):
                 bad.append("read returned %s (g=%s), expected %s (g=%s)" % (g["ret"], g["gAfterRead"], e["ret"], e["gAfterRead"]))
-            if not g["releasedByRead"]:
-                bad.append("the held producer is not released by the read")
+            if g["releasedByRead"] == e["heldAfterRead"]:
+                bad.append("after the read the producer is %s, expected %s"
+                           % ("released" if g["releasedByRead"] else "still held", "still held" if e["heldAfterRead"] else "released"))
         if bad:
             rep.violation("scale:cap%d:fill%d" % (g["cap"], g["fill"]), "capacity %d holding %d objects: %s (OQScale.tla: %s)"
                           % (g["cap"], g["fill"], "; ".join(bad), vlib.json.dumps(e)), dict(expected=e, got=g))
